@@ -159,7 +159,14 @@ pub fn client_id(seed: u64, c: u8) -> Id {
 }
 
 pub fn fresh_id(seed: u64, n: u16) -> Id {
-    make_id(crate::rng::mix(&[seed, 0xF5E5]), n as u64)
+    let id = make_id(crate::rng::mix(&[seed, 0xF5E5]), n as u64);
+    // ids quoted by clients need not be version-4 UUIDs: every third one is a v1 / v7 / "version 0" id
+    if n % 3 == 1 {
+        let mut b = *id.as_bytes();
+        b[6] = (b[6] & 0x0f) | [0x10u8, 0x70, 0x00][(n as usize / 3) % 3];
+        return Uuid::from_bytes(b);
+    }
+    id
 }
 
 /// Resolve a symbolic id for client index `c` (of `n` clients) against the model.
